@@ -411,6 +411,9 @@ func cmdTimers(args []string) error {
 		{"job-object-reuse", timerJobReuse},
 		{"early-poll", timerEarlyPoll},
 		{"policy-removed-during-wait", timerPolicyRemovedDuringWait},
+		{"lease-after-wait", timerLeaseAfterWait},
+		{"wake-after-timer-round", timerWakeAfterTimerRound},
+		{"config-updated-during-wait", timerConfigUpdatedDuringWait},
 	}
 	var scs []sc
 	for i := 0; i < *reps; i++ {
